@@ -28,9 +28,9 @@ def gen_cases(rng, tier, drift):
         if cfg["n"] and not cfg.get("bad") and rng.random() < 0.7:
             cfg["bad"] = [rng.randrange(cfg["n"])]
         L = len(si.batches_ref(cfg))
-        cases.append(dict(kind="sched", cfg=cfg, choices=[rng.randint(0, 5) for _ in range(3 * L + 12)]))
+        cases.append(dict(kind="sched", cfg=cfg, choices=[(100 if rng.random() < 0.12 else rng.randint(0, 5)) for _ in range(3 * L + 12)]))
     for _ in range(n_f):
-        mode = rng.choice(["w0", "collate", "init", "itererr"])
+        mode = rng.choice(["w0", "collate", "init", "itererr", "unordered"])
         if mode == "itererr":
             W = rng.choice([0, 1, 2, 3])
             sizes = [rng.randint(0, 5) for _ in range(max(1, W))]
@@ -40,7 +40,11 @@ def gen_cases(rng, tier, drift):
         else:
             cfg = si.gen_cfg(rng, kinds=("map",), errors=(mode == "w0"))
             cfg["n"] = max(cfg["n"], 1)
-            if mode == "w0":
+            if mode == "unordered":
+                cfg["W"] = rng.choice([2, 3])
+                cfg["I"] = 1
+                cfg["bad"] = sorted(rng.sample(range(cfg["n"]), min(cfg["n"], rng.randint(1, 2))))
+            elif mode == "w0":
                 cfg["W"] = 0
                 cfg.setdefault("bad", [])
                 if not cfg["bad"]:
@@ -115,6 +119,8 @@ def run_impl(c):
             extra["collate_fn"] = si.CollateBad(cfg["cbad"])
         if mode == "init":
             extra["worker_init_fn"] = si.InitBad(cfg["ibad"])
+        if mode == "unordered":
+            extra["in_order"] = False
         if mode == "itererr":
             from torchdata.stateful_dataloader import StatefulDataLoader
             kw = dict(batch_size=cfg["bs"], num_workers=cfg["W"], collate_fn=si.identity, snapshot_every_n_steps=cfg["I"])
@@ -124,7 +130,7 @@ def run_impl(c):
             want = expected(cfg, set(cfg["bad"]), "err:ValueError") + ["stop"]
         else:
             dl = si.make_loader(cfg, **extra)
-            if mode == "w0":
+            if mode in ("w0", "unordered"):
                 want = expected(cfg, set(cfg["bad"]), "err:ValueError") + ["stop"]
             elif mode == "collate":
                 want = expected(cfg, set(cfg["cbad"]), "err:KeyError") + ["stop"]
@@ -135,6 +141,9 @@ def run_impl(c):
         if mode == "init":
             if not got or got[0] != "err:OSError":
                 fails.append(f"worker_init_fn error not surfaced on the first next(): {got}")
+        elif mode == "unordered":
+            if sorted(map(str, got[:-1])) != sorted(map(str, want[:-1])) or got[-1:] != ["stop"]:
+                fails.append(f"in_order=False: consumer saw {got}, reference multiset {want}")
         elif got != want:
             fails.append(f"consumer saw {got}, reference {want}")
         del dl
@@ -164,4 +173,4 @@ def known_match(f, case, detail):
 def widen(c, rng):
     if c["kind"] != "sched":
         return []
-    return [dict(c, choices=[rng.randint(0, 5) for _ in range(len(c["choices"]))]) for _ in range(10)]
+    return [dict(c, choices=[(100 if rng.random() < 0.12 else rng.randint(0, 5)) for _ in range(len(c["choices"]))]) for _ in range(10)]
